@@ -97,6 +97,91 @@ def positions(seed, n):
     return wee.driver_positions(seed, n)
 
 
+def ep_family():
+    """systematic en-passant family: every capturing-pawn / victim pair (both colours), and for each of the three
+    squares involved (capturer, victim, target) every line through it with the mover's king on one side and an enemy
+    slider that moves along that line on the other, at every distance: capturer pinned across / ALONG the capture
+    diagonal, victim pinned, both pawns leaving a rank (discovered check), check given by the double-stepped pawn ...
+    Not filtered here; callers keep the LegalPos ones."""
+    out = []
+    def fen(cells, stm, ep):
+        rows = []
+        for r in range(7, -1, -1):
+            row, run = "", 0
+            for f in range(8):
+                c = cells.get(r * 8 + f)
+                if c is None:
+                    run += 1
+                else:
+                    row += (str(run) if run else "") + c
+                    run = 0
+            rows.append(row + (str(run) if run else ""))
+        return "/".join(rows) + f" {stm} - {'abcdefgh'[ep % 8]}{ep // 8 + 1} 0 1"
+    dirs = [(1, 0), (0, 1), (1, 1), (1, -1)]
+    for white in (True, False):
+        r5 = 4 if white else 3
+        r6 = 5 if white else 2
+        me, opp = ("P", "p") if white else ("p", "P")
+        myk, opk = ("K", "k") if white else ("k", "K")
+        for vf in range(8):
+            for cf in (vf - 1, vf + 1):
+                if not 0 <= cf <= 7:
+                    continue
+                P, V, T = r5 * 8 + cf, r5 * 8 + vf, r6 * 8 + vf
+                base = {P: me, V: opp}
+                for centre in (P, V, T):
+                    cf0, cr0 = centre % 8, centre // 8
+                    for df, dr in dirs:
+                        diag = df != 0 and dr != 0
+                        for sgn in (1, -1):
+                            for kd in range(1, 8):
+                                kf, kr = cf0 + sgn * df * kd, cr0 + sgn * dr * kd
+                                if not (0 <= kf <= 7 and 0 <= kr <= 7):
+                                    break
+                                ks = kr * 8 + kf
+                                if ks in base or ks == T:
+                                    continue
+                                for sd in range(1, 8):
+                                    sf, sr = cf0 - sgn * df * sd, cr0 - sgn * dr * sd
+                                    if not (0 <= sf <= 7 and 0 <= sr <= 7):
+                                        break
+                                    ss = sr * 8 + sf
+                                    if ss in base or ss == T or ss == ks:
+                                        continue
+                                    for sl in (("b" if diag else "r"), "q"):
+                                        sl = sl if white else sl.upper()
+                                        cells = dict(base)
+                                        cells[ks] = myk
+                                        cells[ss] = sl
+                                        # enemy king far from everything
+                                        for ek in (63, 56, 7, 0, 60, 4, 32, 39):
+                                            if ek not in cells and ek != T and abs(ek % 8 - kf) + abs(ek // 8 - kr) > 2:
+                                                cells[ek] = opk
+                                                break
+                                        out.append(fen(cells, "w" if white else "b", T))
+    return sorted(set(out))
+
+
+_EP_LEGAL = None
+
+
+def ep_family_legal():
+    global _EP_LEGAL
+    if _EP_LEGAL is None:
+        fam = ep_family()
+        ans, _, _ = wee.run_driver(["legalpos " + f for f in fam], jobs=8)
+        _EP_LEGAL = [f for f, (m, sp) in zip(fam, ans) if sp == "1"]
+    return _EP_LEGAL
+
+
+def heavy_positions():
+    """corpus/heavy_positions.txt: legal positions with very many legal moves (queen-rich, up to 218; tools/gen_heavy.py)"""
+    try:
+        return [l.strip() for l in open(os.path.join(VERIF, "corpus", "heavy_positions.txt")) if l.strip()]
+    except OSError:
+        return []
+
+
 def model_moves(fens):
     """[(fen, [(lan, raw, attrs)])] from the Lean model"""
     outs, rc, err = wee.run_driver(["moves " + f for f in fens])
@@ -141,6 +226,15 @@ def cli_perft(res, fens, depth):
 def c01(res, tier, seed, deep):
     n = 40000 if tier == "thorough" else (12000 if deep else 5000)
     fens = positions(seed, n)
+    # extreme mobility first (up to 218 legal moves: buffers, counters and bit fields are at their limits there)
+    hv = heavy_positions()
+    epf = ep_family_legal()
+    res.tags["ep_family"] = len(epf)
+    if not (tier == "thorough" or deep):
+        epf = random.Random(seed + 5).sample(epf, min(len(epf), 2500))
+    hv = hv + epf
+    fens = hv + fens
+    res.tags["heavy_positions"] = len(hv) - len(epf)
     reqs = ["moves " + f for f in fens]
     rnd = random.Random(seed)
     for f in fens:
@@ -150,7 +244,7 @@ def c01(res, tier, seed, deep):
         if x < (0.03 if tier == "thorough" else 0.01):
             reqs.append("perft 3 " + f)
     # perft 3 on the sparse rule-coverage positions (stale flags only show after make-move inside the walk)
-    for f in fens[:80]:
+    for f in fens[len(hv):len(hv) + 80]:
         if sum(ch.isalpha() for ch in f.split(" ")[0]) <= 8:
             reqs.append("perft 3 " + f)
     # published perft counts (chessprogramming wiki) as fixed regression inputs
@@ -168,7 +262,10 @@ def c01(res, tier, seed, deep):
 
 def c02(res, tier, seed, deep):
     n = 20000 if tier == "thorough" else (6000 if deep else 2500)
-    fens = positions(seed + 17, n)
+    epf = ep_family_legal()
+    if not (tier == "thorough" or deep):
+        epf = random.Random(seed + 6).sample(epf, min(len(epf), 1500))
+    fens = heavy_positions() + epf + positions(seed + 17, n)
     rnd = random.Random(seed)
     reqs = ["succ " + f for f in fens]
     mm = model_moves(fens)
@@ -511,6 +608,69 @@ def related_variants(f, rnd):
     return out
 
 
+def castle_transit_family(rnd, count):
+    """positions in which a side still has a castling right and an empty path, but the king's TRANSIT square (f/d file)
+    is attacked while its destination is not — castling is the tempting illegal move; either side to move, so that
+    the castle sits at ply 1 or ply 2 of a search.  Unfiltered: callers keep the LegalPos ones with a legal move."""
+    out = []
+    for _ in range(count):
+        black = rnd.random() < 0.5          # the side with the right
+        kingside = rnd.random() < 0.6
+        cells = {}
+        hr = 7 if black else 0              # home rank
+        K, R = ("k", "r") if black else ("K", "R")
+        ek, er, eb, eq, en = ("K", "R", "B", "Q", "N") if black else ("k", "r", "b", "q", "n")
+        cells[hr * 8 + 4] = K
+        cells[hr * 8 + (7 if kingside else 0)] = R
+        transit = hr * 8 + (5 if kingside else 3)
+        # an attacker of the transit square: a rook/queen on its file, or a bishop/queen on one of its diagonals
+        tf = transit % 8
+        step = -1 if black else 1           # towards the enemy camp
+        kind = rnd.choice([er, eq, eb])
+        if kind in (er, eq) and rnd.random() < 0.6:
+            dist = rnd.randrange(2, 8)
+            sqr = (hr + step * dist) * 8 + tf
+        else:
+            kind = rnd.choice([eb, eq])
+            d = rnd.randrange(1, 6)
+            df = rnd.choice([-1, 1])
+            f2, r2 = tf + df * d, hr + step * d
+            if not (0 <= f2 <= 7 and 0 <= r2 <= 7):
+                continue
+            sqr = r2 * 8 + f2
+        if sqr in cells or not 0 <= sqr < 64:
+            continue
+        cells[sqr] = kind
+        # enemy king somewhere on its own half, not adjacent to anything relevant
+        for _ in range(20):
+            s2 = rnd.randrange(64)
+            if s2 not in cells and abs(s2 // 8 - hr) >= 5:
+                cells[s2] = ek
+                break
+        # a few extra men for both sides (not on the castling path, not on the attack line)
+        path = {hr * 8 + c for c in ((5, 6) if kingside else (1, 2, 3))}
+        for ch in rnd.sample(["p", "p", "p", "n", "b", "P", "P", "P", "N", "B", "R", "r"], rnd.randrange(2, 8)):
+            for _ in range(10):
+                s2 = rnd.randrange(8, 56) if ch in "pP" else rnd.randrange(64)
+                if s2 not in cells and s2 not in path and s2 % 8 != tf:
+                    cells[s2] = ch
+                    break
+        rows = []
+        for r in range(7, -1, -1):
+            row, run = "", 0
+            for f in range(8):
+                c = cells.get(r * 8 + f)
+                if c is None:
+                    run += 1
+                else:
+                    row += (str(run) if run else "") + c
+                    run = 0
+            rows.append(row + (str(run) if run else ""))
+        right = ("k" if kingside else "q") if black else ("K" if kingside else "Q")
+        out.append("/".join(rows) + f" {rnd.choice('wb')} {right} - 0 1")
+    return out
+
+
 def c03(res, tier, seed, deep):
     rnd = random.Random(seed)
     n = 300 if tier == "thorough" else (100 if deep else 40)
@@ -521,6 +681,15 @@ def c03(res, tier, seed, deep):
     hm = None
     # (1) single worker, exact
     reqs = [f"search {rnd.getrandbits(32)} {rnd.choice([1, 2, 3])} 1 - {rnd.choice([1, 2, 4])} {rnd.choice([4, 64])} 0 {f}" for f in fens]
+    # (1b) the castling-through-attack family: the search must never put such a castle into a line
+    fam = castle_transit_family(rnd, 4000 if tier == "thorough" else (1500 if deep else 300))
+    ok, _, _ = wee.run_driver(["legalpos " + f for f in fam], jobs=8)
+    fam = [f for f, (m, sp) in zip(fam, ok) if sp == "1"]
+    hmf = has_moves_map(fam)
+    fam = [f for f in fam if hmf.get(f)][: (1200 if tier == "thorough" else (400 if deep else 60))]
+    res.tags["castle_transit_family"] = len(fam)
+    reqs += [f"search {rnd.getrandbits(32)} 3 1 - 2 64 0 {f}" for f in fam]
+    fens = fens + fam
     # (2) histories: searches sharing one artifact over positions differing only in rights / ep
     seqs = []
     castling = [f for f in pool if f.split(" ")[2] != "-" or f.split(" ")[3] != "-"]
@@ -617,6 +786,15 @@ def c04(res, tier, seed, deep):
     for _ in range(sn):
         f = rnd.choice(cand)
         sreqs.append(f"stoptest {rnd.getrandbits(32)} {rnd.choice(['-', '-', '3', '50'])} {rnd.choice([0, 0, 5, 40, 150, 400])} {rnd.choice([0, 1])} {rnd.choice([1, 1, 3])} {f}")
+    # roots with a FORCED outcome and no depth limit: the side to move mates in 1-3 plies (the loop ends by itself) or is
+    # being mated in 2-4 plies (the loop never ends by itself: only Stop ends it, whatever the table already proves)
+    fm = mate_positions(seed + 5, 40, 3)
+    kd, _, _ = wee.run_driver([f"matekeep {d} {f}" for d, k, f in fm], jobs=8)
+    losing = [t.split(":")[1].replace("_", " ") for (m, sp) in kd for t in sp.split(" ")[:1] if ":" in t]
+    forced = rnd.sample(losing, min(len(losing), 8 if (tier == "thorough" or deep) else 3)) + [f for d, k, f in rnd.sample(fm, min(len(fm), 2))]
+    for f in forced:
+        sreqs.append(f"stoptest {rnd.getrandbits(32)} - {rnd.choice([60, 250, 700])} {rnd.choice([0, 1])} 1 {f}")
+    res.tags["forced_outcome_roots"] = len(forced)
     sout, _, _ = wee.run_lines(wee.harness_path(), sreqs, timeout=1800, per_request_timeout=60)
     worst = 0
     for r, o in zip(sreqs, sout):
@@ -648,6 +826,14 @@ def c06(res, tier, seed, deep):
     rnd = random.Random(seed)
     n = 400 if tier == "thorough" else (120 if deep else 60)
     mates = mate_positions(seed, n, 5 if tier == "thorough" else 3)
+    # corpus: forced mates in 3 whose only key moves are under-promotions (tools/gen_underpromo.py, exhaustive solver) —
+    # random few-men positions practically never need one
+    try:
+        up = [l.strip() for l in open(os.path.join(VERIF, "corpus", "underpromo_mates.txt")) if l.strip()]
+    except OSError:
+        up = []
+    mates = [(3, 1, f) for f in (up if (tier == "thorough" or deep) else rnd.sample(up, min(len(up), 12)))] + mates
+    res.tags["underpromotion_mates"] = len(up)
     reqs, meta = [], []
     for d, keep, f in mates:
         for dd in (d, d + 1, d + 2):
